@@ -6,7 +6,8 @@
 # /repo itself is not touched. Prints one line per check.
 d="$(cd "$1" && pwd)"; tier="${2:-quick}"; shift; shift
 scratch=$(mktemp -d /root/seedrepo-XXXXXX)
-trap 'rm -rf "$scratch"' EXIT
+tag=$(python3 -c "import hashlib,sys;print(hashlib.sha1(sys.argv[1].encode()).hexdigest()[:8])" "$scratch")
+trap 'rm -rf "$scratch" /verif/out/bin/C??-$tag /verif/out/altmod/*$tag* 2>/dev/null' EXIT
 git -C /repo archive HEAD | tar -x -C "$scratch" || exit 2
 (cd "$scratch" && git init -q . && git apply "$d/patch.diff") || { echo "patch does not apply"; exit 2; }
 checks="$@"
